@@ -820,7 +820,11 @@ def gen_rt_roll(rng, fps=None, deep=False):
     if deep:
         n, w, base = rng.choice([16, 64]), 1, rng.choice([10000, 30000, 100000])
     frames = gen_bool_matrix(rng, n, w, rng.choice(['runs', 'dense', 'iid', 'sparse']))
-    return {'kind': 'rt_roll', 'fps': fps, 'w': w, 'frames': frames, 'base': base, 'min_pitch': rng.choice([21, 60, 0])}
+    # a note on the frame grid occupies 100 % of each of its frames, so by the documented meaning of
+    # min_frame_occupancy_for_label ("a note must occupy at least this share of a frame") every threshold in [0,1]
+    # must give the same roll
+    return {'kind': 'rt_roll', 'fps': fps, 'w': w, 'frames': frames, 'base': base, 'min_pitch': rng.choice([21, 60, 0]),
+            'occ': rng.choice([0.0, 0.0, 0.5, 1.0])}
 
 
 def oracle_rt_roll(sl, case):
@@ -830,7 +834,8 @@ def oracle_rt_roll(sl, case):
     full = dict(case, frames=frames, kw={'min_midi_pitch': case['min_pitch']})
     try:
         ns = dec_call(sl, full)
-        pr = sl.sequence_to_pianoroll(ns, case['fps'], case['min_pitch'], case['min_pitch'] + w - 1)
+        pr = sl.sequence_to_pianoroll(ns, case['fps'], case['min_pitch'], case['min_pitch'] + w - 1,
+                                      min_frame_occupancy_for_label=case.get('occ', 0.0))
     except Exception as e:  # pylint: disable=broad-except
         return 'unexpected %s: %s' % (type(e).__name__, e)
     act = pr.active > 0
@@ -862,7 +867,8 @@ def gen_rt_notes(rng, fps=None, deep=False):
     rng.shuffle(notes)
     maxend = max([n[3] for n in notes] + [0.0])
     total = maxend if rng.random() < 0.6 else maxend + rng.randrange(1, 3) * (1 / fps)
-    return {'kind': 'rt_notes', 'fps': fps, 'min_pitch': minp, 'max_pitch': minp + w - 1, 'total': total, 'notes': notes}
+    return {'kind': 'rt_notes', 'fps': fps, 'min_pitch': minp, 'max_pitch': minp + w - 1, 'total': total, 'notes': notes,
+            'kw': {'min_frame_occupancy_for_label': rng.choice([0.0, 0.0, 0.5, 1.0])}}
 
 
 def oracle_rt_notes(sl, case):
